@@ -45,7 +45,7 @@ REPO = os.environ.get("VF_REPO", "/repo")
 VERIF = os.path.dirname(os.path.dirname(os.path.abspath(__file__)))
 
 CLAUSES = {"requires", "ensures", "returns", "raises", "may_raise", "modifies", "pure", "let", "cover", "holds",
-           "variant", "declare", "assume", "check", "fresh_result", "sample"}
+           "variant", "declare", "assume", "check", "fresh_result", "sample", "sample_with", "verify_types", "replay_with", "known_finding"}
 
 
 class Clause:
@@ -506,8 +506,27 @@ class Registry:
         fr.old = old_fr if old_fr is not None else fr
         result: Any = UNBOUND
         rets = con.of("returns")
+        bound_by: Any = None
+        if not rets:
+            # an ensures clause of the form  result == E  or  implies(C, result == E)  with C true here defines the result
+            for c in con.of("ensures"):
+                e = c.arg(0)
+                cond = None
+                if isinstance(e, ast.Call) and isinstance(e.func, ast.Name) and e.func.id == "implies" and len(e.args) == 2:
+                    cond, e = e.args[0], e.args[1]
+                if (isinstance(e, ast.Compare) and len(e.ops) == 1 and isinstance(e.ops[0], ast.Eq)
+                        and isinstance(e.left, ast.Name) and e.left.id == "result"):
+                    if cond is not None:
+                        cv = ops.truth_term(p, it.ev(cond, fr))
+                        if cv is not True and not (cv is not False and p.entails(cv)):
+                            continue
+                    result = it.ev(e.comparators[0], fr)
+                    bound_by = c
+                    break
         if rets:
             result = it.ev(rets[0].arg(0), fr)
+        elif bound_by is not None:
+            pass
         else:
             fres = con.of("fresh_result")
             rtyp = con.ret_ann
@@ -519,6 +538,8 @@ class Registry:
                 result = self.make_symbolic(it, "ret_" + short.split(".")[-1], rtyp)
         fr.result = result
         for c in con.of("ensures"):
+            if c is bound_by:
+                continue
             t = self.eval_bool(it, c.arg(0), fr)
             p.assume(t)
         if not p.feasible():
